@@ -909,6 +909,9 @@ class RF24:
     def stop_carrier_wave(self):
         """Stops a continuous carrier wave test."""
         self._ce_pin.value = False
-        self.power = False
+        # power down from the shadow copy: on non-plus variants the CONFIG register holds
+        # the test's value (CRC off, IRQs masked), which must not replace the user's settings
+        self._config &= 0x7D
+        self._reg_write(CONFIGURE, self._config)
         self._rf_setup &= ~0x90
         self._reg_write(RF_PA_RATE, self._rf_setup)
